@@ -45,13 +45,25 @@ class Infra(Exception):
 
 
 def sh(cmd, cwd=None, timeout=3600, env=None):
+    """Run a command under a time limit.  (coreutils `timeout` is deliberately not used: wrapped in
+    it, 16 parallel coqc processes spend minutes of system time in this sandbox.)"""
+    import signal
     e = dict(os.environ)
     e["CARGO_NET_OFFLINE"] = "true"
     if env:
         e.update(env)
-    p = subprocess.run(cmd, cwd=cwd, stdout=subprocess.PIPE, stderr=subprocess.STDOUT, timeout=timeout, env=e,
-                       shell=isinstance(cmd, str))
-    return p.returncode, p.stdout.decode("utf-8", "replace")
+    p = subprocess.Popen(cmd, cwd=cwd, stdout=subprocess.PIPE, stderr=subprocess.STDOUT, env=e,
+                         shell=isinstance(cmd, str))
+    try:
+        out, _ = p.communicate(timeout=timeout)
+    except subprocess.TimeoutExpired:
+        try:
+            p.kill()
+        except ProcessLookupError:
+            pass
+        out, _ = p.communicate()
+        return 124, out.decode("utf-8", "replace") + "\n[timed out after %ds]" % timeout
+    return p.returncode, out.decode("utf-8", "replace")
 
 
 def strip_coq_comments(s):
@@ -133,7 +145,7 @@ def ensure_makefile():
 
 def make(targets, timeout=3000):
     ensure_makefile()
-    return sh(["timeout", str(timeout), "make", "-j%d" % JOBS] + targets, cwd=COQ, timeout=timeout + 60)
+    return sh("ulimit -s 1000000 2>/dev/null; exec make -j%d %s" % (JOBS, " ".join(targets)), cwd=COQ, timeout=timeout)
 
 
 def build_harness():
@@ -228,8 +240,8 @@ def case_weight(c):
 def run_shard(args):
     idx, path, timeout = args
     t0 = time.time()
-    rc, out = sh("ulimit -s unlimited 2>/dev/null; exec timeout %d coqc -noglob -Q %s Verif %s" % (
-        timeout, os.path.join(COQ, "theories"), path), timeout=timeout + 30)
+    rc, out = sh("ulimit -s 1000000 2>/dev/null; exec coqc -noglob -Q %s Verif %s" % (
+        os.path.join(COQ, "theories"), path), timeout=timeout)
     return idx, rc, out, time.time() - t0
 
 
@@ -241,6 +253,9 @@ def evaluate(cases, workdir, shard_weight=1500, timeout=1500):
             os.remove(os.path.join(workdir, f))
     shards = []
     cur, w = [], 0
+    total = sum(case_weight(c) for c in cases)
+    # about one shard per core (each coqc start costs ~1 s user + ~1.5 s system time here)
+    shard_weight = max(shard_weight, total // JOBS + 1)
     for i, c in enumerate(cases):
         cw = case_weight(c)
         if cur and w + cw > shard_weight:
@@ -264,14 +279,14 @@ def evaluate(cases, workdir, shard_weight=1500, timeout=1500):
         for k, rc, out, dt in ex.map(run_shard, jobs):
             if rc != 0:
                 raise Infra("coqc failed on shard %d (rc=%d):\n%s" % (k, rc, out[-3000:]))
-            answers = re.findall(r"=\s*(\[.*?\])\s*:\s*list \(N \* N\)", out, re.S)
+            answers = re.findall(r"=\s*(\[.*?\])\s*:\s*list N\b", out, re.S)
             if len(answers) != (len(shards[k]) + 39) // 40:
                 raise Infra("cannot parse coqc output of shard %d:\n%s" % (k, out[-2000:]))
             for i in shards[k]:
                 flags[i] = 0
             for a in answers:
-                for mm in re.finditer(r"\((\d+)(?:%N)?,\s*(\d+)(?:%N)?\)", a):
-                    flags[shards[k][int(mm.group(1))]] = int(mm.group(2))
+                for tok in re.findall(r"\d+", a):
+                    flags[shards[k][int(tok) // 1024]] = int(tok) % 1024
     for f in os.listdir(workdir):
         if f.startswith("cases_") and not f.endswith(".v"):
             os.remove(os.path.join(workdir, f))
